@@ -232,7 +232,7 @@ type Fld struct {
 }
 type Out struct {
 	K   string  `json:"k"`
-	Res []any   `json:"res,omitempty"`
+	Res []any   `json:"res"`
 	Inv []Inv   `json:"inv,omitempty"`
 	Msg string  `json:"msg,omitempty"`
 	L   [][]Fld `json:"l"`
@@ -310,7 +310,13 @@ func runOp(mock reflect.Value, op Op) (out Out) {
 			for _, n := range op.Elems {
 				args = append(args, enc(et, n))
 			}
-			rets = mv.Call(args)
+			if len(op.Elems) == 0 {
+				// compiled Go passes a nil slice when no variadic argument is given (spec, "Passing
+				// arguments to ... parameters"); reflect's Call would build an empty non-nil one
+				rets = mv.CallSlice(append(args, reflect.Zero(mt.In(nfix))))
+			} else {
+				rets = mv.Call(args)
+			}
 		case "spread":
 			st := mt.In(nfix)
 			s := reflect.Zero(st)
